@@ -484,6 +484,8 @@ def run_fn_case(case: dict) -> dict:
     args = {k: value_obj(v) for k, v in case["args"].items()}
     if case.get("retval") not in (None, "raise"):
         retbox[0] = value_obj(case["retval"])
+    if case.get("retval_same_as"):
+        retbox[0] = args[case["retval_same_as"]]     # the body hands back the very object it was given
     pos = [args[n] for n in case.get("positional", [])]
     kw = {k: v for k, v in args.items() if k not in case.get("positional", [])}
     out: dict
